@@ -105,8 +105,25 @@ def gen_obs(tier, seed):
     return obs
 
 
+def genstep_obs():
+    obs = []
+    names = 'pqrstu'
+    for np_ in (3, 4, 5, 6):
+        fn = 'raid_gen%d_int8' % np_
+        accs = names[:np_]
+        pro = '\tuint8_t d0;\n' + ''.join('\tuint8_t %s0 = *%s0p;\n' % (c, c) for c in names) + '\tdo { /* the region text closes this brace */'
+        epi = '\twhile (0);\n' + ''.join('\t*%s0p = %s0;\n' % (c, c) for c in names)
+        reg = dict(region='genstep', file='raid/int.c', scope='void %s(int nd, size_t size, void **vv)' % fn, begin='for (d = l; d > 0; --d) {', end='/* first disk with all coefficients at 1 */',
+                   end_first_after=True, max_lines=14, brace_balance=-1, expect_loops=0,
+                   proto='static void region_genstep(uint8_t **v, int d, size_t i, ' + ', '.join('uint8_t *%s0p' % c for c in names) + ')', prologue=pro, epilogue=epi)
+        obs.append(Ob('gen.step.%s' % fn[5:], 'harness/h_genstep.c', 'h_genstep', ['raid/raid.c', 'raid/tables.c'], inject=[reg], defs={'STEP_NP': np_}, unwind=260, timeout=1800, mem=6, cost=40, tier='quick' if np_ == 6 else 'thorough',
+                      functions=['%s: inner loop body (raid/int.c, extracted mechanically)' % fn],
+                      note='UNBOUNDED in nd: disk index d symbolic over 1..250, data byte and all accumulators symbolic; multiplication written in table form (TAB-MUL, TAB-CAUCHY)'))
+    return obs
+
+
 def c02(tier, seed):
-    return table_obs(tier) + bittrick_obs() + gen_obs(tier, seed)
+    return table_obs(tier) + bittrick_obs() + gen_obs(tier, seed) + genstep_obs()
 
 
 # ---------------------------------------------------------------- split parity (C17)
@@ -319,7 +336,10 @@ STATE_Q_AUTOCONF = dict(region='state_q_autoconf', file='cmdline/state.c', scope
 
 
 def state_obs(tier):
-    return [Ob('state.record_Q.autoconf', 'harness/h_stateq.c', 'h_region_q_autoconf', ['cmdline/util.c'], inject=[STATE_Q_AUTOCONF], unwind=12, small_path=True, timeout=900, mem=8, cost=5,
+    return [Ob('state.write.order', 'harness/h_statew.c', 'h_state_write', route='dfcc', replace=['state_write_content', 'state_verify_content', 'state_rename_content'], unwind=4, small_path=True,
+               timeout=900, mem=8, cost=5, replay=False, functions=['state_write (cmdline/state.c)'],
+               note='typestate contracts on the three steps (dfcc replace): each requires the phase its predecessor ensures; the checksum handed to the verification is the one produced by the write'),
+            Ob('state.record_Q.autoconf', 'harness/h_stateq.c', 'h_region_q_autoconf', ['cmdline/util.c'], inject=[STATE_Q_AUTOCONF], unwind=12, small_path=True, timeout=900, mem=8, cost=5,
                functions=["state_read_content: region record 'Q', auto-configuration step (cmdline/state.c, extracted mechanically)"],
                note="region = the validity checks on the announced level / split count plus the auto-configuration step; state, v_level, v_split_mac become parameters; every 32-bit value of both")]
 
@@ -348,6 +368,19 @@ def sync_fixchk_obs():
                kind='bounded', bound='at most 3 failed blocks per stripe, block size 8',
                functions=['state_sync_process: region "check the result and prepare the data" .. "if all is processed" (cmdline/sync.c, extracted mechanically)'],
                note='every state BLK/CHG/REP/DELETED of each failed block, sizes, buffer and saved-copy contents, outcome of each digest comparison; memhash by contract')]
+
+
+SYNC_PREHASH = dict(region='sync_prehash', file='cmdline/sync.c', scope='static int state_hash_process(struct snapraid_state* state, block_off_t blockstart, block_off_t blockmax, int* skip_sync)',
+                    begin='/* now compute the hash */', end='/* count the number of processed block */', end_first_after=True, max_lines=60,
+                    proto='static void region_sync_prehash(struct snapraid_state *state, int rehash, unsigned char *buffer, unsigned read_size, unsigned block_state, struct snapraid_block *block, block_off_t i, struct snapraid_disk *disk, struct snapraid_file *file, struct snapraid_handle *handle, unsigned j, block_off_t file_pos, int *skip_sync, unsigned *silent_error_p, int *reached_end)',
+                    prologue='\tunsigned char hash[HASH_MAX];\n\tchar esc_buffer[ESC_MAX];\n\tunsigned silent_error = *silent_error_p;\n\tint once;\n\tfor (once = 0; once < 1; ++once) { /* loop body: `continue` ends it */',
+                    epilogue='\t*reached_end = 1;\n\t}\n\t*silent_error_p = silent_error;\n\t(void)esc_buffer;')
+
+
+def sync_prehash_obs():
+    return [Ob('sync.prehash.region', 'harness/h_sync.c', 'h_sync_prehash', inject=[SYNC_COMPLETE, SYNC_PREHASH], defs={'VERIF_PREHASH_REGION': None}, unwind=18, small_path=True, timeout=900, mem=8, cost=8, replay=False,
+               functions=['state_hash_process: region "now compute the hash" .. "count the number of processed block" (cmdline/sync.c, extracted mechanically)'],
+               note='every block state CHG/REP, recorded hash, digests, hash size 2..16, migration flag, copy flag; memhash by contract')]
 
 
 def sync_hash_obs():
@@ -380,7 +413,7 @@ def import_obs():
 
 
 def c19(tier, seed):
-    return sync_hash_obs() + import_obs()
+    return sync_hash_obs() + sync_prehash_obs() + import_obs()
 
 
 def c09(tier, seed):
@@ -393,8 +426,19 @@ NSEC_DEC = dict(region='nsec_dec', file='cmdline/state.c', begin='/* STAT_NSEC_I
                 proto='static void region_nsec_dec(uint32_t *v_mtime_nsec_p)', prologue='\tuint32_t v_mtime_nsec = *v_mtime_nsec_p;', epilogue='\t*v_mtime_nsec_p = v_mtime_nsec;')
 
 
+INFO_ENC = dict(region='info_enc', file='cmdline/state.c', begin='/* if there is info */', end='if (serror(f)) {', end_first_after=True, max_lines=40, expect_loops=0,
+                proto='static void region_info_enc(snapraid_info info, time_t info_now, time_t info_oldest, STREAM *f)', prologue='\tunsigned flag;\n\ttime_t t;')
+INFO_DEC = dict(region='info_dec', file='cmdline/state.c', begin='/* if there is an info */', end='while (v_count) {', end_first_after=True, max_lines=40, expect_loops=0,
+                proto='static snapraid_info region_info_dec(struct snapraid_state *state, uint32_t flag, uint32_t v_oldest, STREAM *f, const char *path)',
+                prologue='\tint ret, bad, rehash, justsynced;\n\tuint32_t t;\n\tsnapraid_info info;', epilogue='\t(void)ret;\n\treturn info;')
+
+
 def staterec_obs(tier):
-    return [Ob('state.f_record.mtime_nsec.roundtrip', 'harness/h_staterec.c', 'h_nsec_roundtrip', inject=[NSEC_ENC, NSEC_DEC], unwind=4, small_path=True, timeout=600, mem=6, cost=3,
+    return [Ob('state.i_record.info.roundtrip', 'harness/h_staterec.c', 'h_info_roundtrip', inject=[NSEC_ENC, NSEC_DEC, INFO_ENC, INFO_DEC], defs={'VERIF_INFO_REGIONS': None}, unwind=4, small_path=True,
+               timeout=600, mem=6, cost=3,
+               functions=["state_write_content: region 'i' record info word encoding (cmdline/state.c, extracted)", "state_read_content: region 'i' record info word decoding (cmdline/state.c, extracted)", 'info_make / info_get_* (cmdline/elem.h)'],
+               note='every info word, every oldest <= time, every now; sputb32 / sgetb32 replaced by a FIFO (their round trip is unit stream.rt32)'),
+            Ob('state.f_record.mtime_nsec.roundtrip', 'harness/h_staterec.c', 'h_nsec_roundtrip', inject=[NSEC_ENC, NSEC_DEC], unwind=4, small_path=True, timeout=600, mem=6, cost=3,
                functions=["state_write_content: region 'f' record nanosecond encoding (cmdline/state.c, extracted)", "state_read_content: region 'f' record nanosecond decoding (cmdline/state.c, extracted)"],
                note='every nanosecond value 0..999999999 and STAT_NSEC_INVALID; sputb32 replaced by a recording stub (its round trip with sgetb32 is unit stream.rt32)')]
 
@@ -432,9 +476,9 @@ PROPS['C02'].update(
     explanation='Lemmas over the real raid/tables.c tie every lookup table to a table-free GF(2^8)/0x11d specification and to the documented Cauchy / power matrices for ALL indices (symbolic, loop-free). '
                 'The bit tricks x2/d2 carry dfcc-enforced contracts for all arguments. Every portable generator (gen1/2/z int32+int64, gen3..6 int8) and the dispatcher raid_gen (+ real raid_init binding) is checked '
                 'against sum_d A[j][d]*D_d, frame included (data, pointer vector, guard bytes), with ALL contents symbolic, for the geometries listed in units: nd 1..3 (int8) / 1..4 (int32/64) in quick, up to 5 / 12 in thorough. '
-                'Whole-function obligations do not scale to large nd (DESIGN.md section 2.2: the verification condition is a XOR-of-table-lookups miter no installed SAT back end decomposes), so for nd beyond those values the claim rests on the table lemmas only.',
+                'Whole-function obligations do not scale to large nd (DESIGN.md section 2.2: the verification condition is a XOR-of-table-lookups miter no installed SAT back end decomposes); for larger nd the claim rests on the table lemmas plus the STEP obligations: the mechanically extracted inner loop body of raid_gen3..6_int8 adds A[j][d]*D to accumulator j for EVERY disk index d in 1..250 (symbolic), every data byte and state - the induction over the loop is argued, not machine checked.',
     trusted_base=['spec/gf_spec.h (40 lines, table-free field arithmetic and the documented matrix)', 'include/noasm/config.h for the dispatcher units (repo config.h with HAVE_ASSEMBLY off)'],
-    assumptions=[SIMD_NOTE, 'generator obligations enumerate geometry: nd <= 5 (int8) / nd <= 12 (int32/int64), size = 1 or 2 chunks of the implementation (64 bytes through raid_gen); larger nd and sizes are NOT covered by a whole-function obligation', CBMC_BUG],
+    assumptions=[SIMD_NOTE, 'generator obligations enumerate geometry: nd <= 5 (int8) / nd <= 12 (int32/int64), size = 1 or 2 chunks of the implementation (64 bytes through raid_gen); larger nd and sizes are NOT covered by a whole-function obligation; the step obligations cover the loop BODY for all d, the composition over the loop (d = nd-1 .. 1, then disk 0) is an induction done on paper', CBMC_BUG],
     not_covered=['raid/x86.c, raid/x86z.c (inline assembly)', 'generators at nd > 12 / nd > 5 (int8) as whole functions', 'block sizes beyond two chunks (the outer loop carries no state; argued, not discharged)'])
 PROPS['C03'].update(
     explanation='(1) MDS on the real tables: every 1x1 and 2x2 minor of the 6x251 Cauchy and 3x251 power matrices is non-singular for ALL row/column pairs (symbolic indices), every 3x3 minor for ALL column triples of each of the 20 row triples and of the power matrix (thorough tier only: 6-15 min per row triple) - orders 4..6 are NOT discharged (3.8e11 minors; the structural Cauchy argument needs mathematics outside the tool). '
@@ -448,16 +492,16 @@ PROPS['C03'].update(
     not_covered=['T[..][x] reconstruction loops of raid_rec1_int8 (ip != 0), raid_rec2_int8, raid_recX_int8, raid_rec2of2_int8', 'raid_validate / raid_check / raid_scan (same row-pointer reads)', 'SSSE3/AVX2 decoders (inline assembly)', 'raid_invert for n >= 3'])
 PROPS['C09'].update(
     explanation='Memory safety and exact accept/reject behaviour of the content-file decoding primitives (sgetb32, sgetb64, sgetble32, sgetbs, sread, sgetc, sgetc_uncached, sfill) for EVERY byte string (12 bytes visible, a 64-bit varint has at most 10) under EVERY chunking by read() and stream buffer size 1..4 (STREAM_SIZE is a run-time variable of the real code): cbmc pointer/bounds/overflow/shift obligations on the real cmdline/stream.c plus equality with an arithmetic varint specification. '
-                'This found a genuine defect (sgetbs length 0xffffffff, out-of-bounds write), repaired by a fix: commit (known_findings.txt). Record-level decoding in state_read_content, the CRC seal and the write/verify/rename order are not yet under contract (see not_covered).',
+                'This found a genuine defect (sgetbs length 0xffffffff, out-of-bounds write), repaired by a fix: commit (known_findings.txt). CRC-32C: tables, linearity lemmas and crc32c_gen* for short lengths. Record level: the Q-record validity/auto-configuration region (found and fixed an out-of-bounds defect). state_write: typestate contract write -> verify (with the checksum computed while writing) -> rename. The other record decoders are not under contract.',
     trusted_base=['read()/write() stubs in harness/h_stream.c (assumed contract of the OS calls)', 'crc32c replaced by its contract "pure, any value" in these units'],
     assumptions=['string obligations use destination buffers of at most 6 bytes (bounded, labelled)', 'forming (not dereferencing) a pointer past the end of the stream buffer (stream.h sptrlookup) is not counted as a violation'],
-    not_covered=['state_read_content record decoders', 'CRC-32C seal', 'atomic replacement order in state_write', 'crash points (not a contract-level statement)'])
+    not_covered=["state_read_content record decoders other than the 'Q' validity region", 'inside of state_write_content / state_verify_content / state_rename_content (O_EXCL, flush, fsync, re-read)', 'crash points (not a contract-level statement)', 'that a CRC mismatch is always reached before any state is used'])
 PROPS['C10'].update(
     explanation='Codec pairs of the content file are exact inverses for ALL values: sgetb32(sputb32(v)) == v for all 2^32 v, sgetb64(sputb64(v)) == v for all 2^64 v, sgetble32/sputble32, sgetbs/sputbs (strings up to 6 arbitrary non-NUL bytes), with the bytes travelling through write() and read() stubs under every chunking and buffer size 1..4; the encoder output is minimal (canonical) and terminated as specified, nothing is left over. '
-                'Record-level encode/decode of state.c is not yet under contract.',
+                'Record level (mechanically extracted encode/decode regions of state.c, integers travelling through a FIFO that stands for sputb32/sgetb32): the nanosecond field of the f record and the per-stripe info word of the i record round-trip for all values (a time in the future is clamped to now - the documented normalisation). The block-run and hole run-length encodings are not under contract.',
     trusted_base=['read()/write() stubs in harness/h_stream.c'],
     assumptions=['sputbs/sgetbs round trip bounded to strings of at most 6 bytes'],
-    not_covered=['state_write_content / state_read_content record level', 'tommyds containers, list ordering, byte identity of whole files'])
+    not_covered=['block-run (f record) and hole (h record) run-length codecs, names, links, dirs, maps', 'tommyds containers, list ordering, byte identity of whole files'])
 PROPS['C17'].update(
     explanation='parity_split_find carries a dfcc-enforced contract for every size vector of up to SPLIT_MAX=8 splits and every offset: the result is the unique split k with prefix(k) + offset\' == offset and 0 <= offset\' < size_k, NULL exactly outside the recorded sizes, only *offset assigned. Over two calls: the address map is injective and, with block-aligned split sizes, no stripe straddles two files. '
                 'parity_write / parity_read hand exactly (fd of split k, offset\', block_size) to pwrite/pread and maintain valid_size monotonically (block sizes 2^10..2^24, concrete per unit). hbit_u64 is the highest set bit (dfcc, all 2^64 values). parity_handle_fill carries an UNBOUNDED inductive loop contract (invariant + decreases, injected into a scratch copy of parity.c, grow/shrink/hbit replaced by contracts): the file ends block aligned, never above the request, never below its previous aligned size, and exactly at the request when the OS granted every grow.',
